@@ -257,7 +257,7 @@ pub fn exec(c: &AlignCase, mem: &mut dyn Mem) -> Vec<u8> {
     match &c.api {
         Api::CipherApply(v) => {
             let nl = crate::refmodels::chacha::VARIANTS[*v].nonce_len();
-            let mut ci = chacha_stream::make_cipher(*v, &key[..32], &key[32..32 + nl]);
+            let mut ci = chacha_stream::make_cipher_at(*v, &key[..32], &key[32..32 + nl]);
             // vary the buffered state a little as well
             let mut pre = vec![0u8; (c.seed % 70) as usize];
             ci.try_apply(&mut pre).unwrap();
@@ -273,7 +273,7 @@ pub fn exec(c: &AlignCase, mem: &mut dyn Mem) -> Vec<u8> {
             let k: &[u8] = unsafe { std::slice::from_raw_parts(k.as_ptr(), 32) };
             let n = mem.slot(1, nl);
             n.copy_from_slice(&key[32..32 + nl]);
-            let mut ci = chacha_stream::make_cipher(*v, k, n);
+            let mut ci = chacha_stream::make_cipher_at(*v, k, n);
             let mut out = vec![0u8; 100];
             ci.try_apply(&mut out).unwrap();
             out
